@@ -195,6 +195,18 @@ def run(ctx):
                     # history itself: only every other generated history ends with one, the directed ones never)
                     lsp_history(ctx, lws, lsteps, burst=(h % 4 == 0))
                 shutil.rmtree(lroot, ignore_errors=True)
+            if h == 0:
+                # directed: a document that ends with no fixture usage and no finding at all (nothing is left to publish but the
+                # retraction of what was published before)
+                droot = ctx.scratch("lplain")
+                dws = gen.gen_workspace(droot, ctx.rng, depth=1, venv=False, allow_imports=False)
+                materialize(dws)
+                probe = sorted(r_ for r_ in dws.workspace_py() if r_.endswith("test_probe.py"))[0]
+                nm = dws.spec["names"][0] if dws.spec.get("names") else "fx_a"
+                dsteps = [{"op": "only_undeclared", "rel": probe, "text": f"def test_only_body():\n    v = {nm}\n    return {nm}.x\n", "valid": True},
+                          {"op": "plain_file", "rel": probe, "text": "def test_plain():\n    pass\n", "valid": True}]
+                lsp_history(ctx, dws, dsteps)
+                shutil.rmtree(droot, ignore_errors=True)
             ctx.sample({"workspace": ws.spec, "history": [(s["op"], s["rel"], s["valid"]) for s in steps]})
             ctx.count("histories")
             ctx.count("steps", len(steps))
